@@ -248,9 +248,10 @@ class RaftOracle:
                                + (f"; the AppendEntries it answered covered indices <= {la[2]}" if la else ""))
 
     def _leader_side_match(self, l, ev):
+        """After a leader handled an AppendEntriesResponse from p: as long as p's term is not above the leader's, nobody
+        but this leader (in this term) can have changed p's log since p last acknowledged to it, so what the leader's
+        table says about p must be a prefix p really shares with it."""
         md = ev.context.get("metadata", {})
-        if not md.get("success"):
-            return
         ln = self.nodes[l]
         if ln.state is not RaftState.LEADER:
             return
@@ -258,21 +259,30 @@ class RaftOracle:
         if p is None:
             return
         t = md.get("term")
-        if t < ln.current_term:
-            self.probes["success_response_of_older_term_reached_leader"] += 1
+        older = t < ln.current_term
+        if md.get("success"):
+            if older:
+                self.probes["success_response_of_older_term_reached_leader"] += 1
+            elif t == ln.current_term:
+                self.old_match[l][p] = md.get("match_index", 0)
+        if self.nodes[p].current_term > ln.current_term:
             return
-        if t == ln.current_term:
-            self.old_match[l][p] = md.get("match_index", 0)
-        if t == ln.current_term and self.nodes[p].current_term == t:
-            table = getattr(ln, "_match_index", None)
-            if not isinstance(table, dict):
-                return
-            m = table.get(self.nodes[p].name, 0)
-            true = self._matching_prefix(l, p)
-            if m > true and m > md.get("match_index", 0):
-                self._fine("match-index-le-matching-prefix", "RaftAppendEntriesResponse", "leader-recorded-more-than-reported",
-                           f"leader {ln.name} recorded match_index={m} for {self.nodes[p].name} from a response that "
-                           f"reported {md.get('match_index')}; true matching prefix {true}")
+        table = getattr(ln, "_match_index", None)
+        if not isinstance(table, dict):
+            return
+        m = table.get(self.nodes[p].name, 0)
+        true = self._matching_prefix(l, p)
+        if m > true:
+            if older and md.get("success") and m == md.get("match_index", 0):
+                detail = "response-of-older-term-accepted"
+            elif md.get("success") and m > md.get("match_index", 0):
+                detail = "leader-recorded-more-than-reported"
+            else:
+                detail = "other"
+            self._fine("match-index-le-matching-prefix", "RaftAppendEntriesResponse", detail,
+                       f"leader {ln.name} (term {ln.current_term}) holds match_index={m} for {self.nodes[p].name} after a "
+                       f"{'success' if md.get('success') else 'failure'} response of term {t} reporting {md.get('match_index')}; "
+                       f"that peer's log agrees with the leader's only up to index {true}")
 
     def _match_table_at_election(self, i, term):
         """Right after a node turns leader: whatever its match_index table says about a peer must not exceed the
